@@ -72,7 +72,7 @@ def sum_term_shape(k):
     return None
 
 
-def run(chk, repo, tier):
+def linear_forms(chk, repo, rule='R01.1', rule_try='R01.7'):
     pset, _, est = find_registration(repo)
     methods = repo.methods(GD, est)
     positions = set()
@@ -87,7 +87,7 @@ def run(chk, repo, tier):
         tparam = ps[1] if len(ps) > 1 else None
         paths = sym.summarize(f)
         n_inst += 1
-        chk.ob('R01.7', not has_try(f), GD, f, key='no-handler:' + mname,
+        chk.ob(rule_try, not has_try(f), GD, f, key='no-handler:' + mname,
                what='%s has no try/except (a handler could return a partial '
                     'sum or hide IncompleteDataError)' % mname)
         for p in paths:
@@ -125,19 +125,24 @@ def run(chk, repo, tier):
                               and list(rest[0][1].items()) == [
                                   (('call', ('attr', SELF, 'get_Selements'),
                                     (), ()), 1)])
-            chk.ob('R01.1', ok, GD, f, key='linear-form:%s:%s' % (
+            chk.ob(rule, ok, GD, f, key='linear-form:%s:%s' % (
                 mname, ';'.join(('' if pol else '!') + show(k)
                                 for k, pol in p.conds())),
                    what='%s is the count-weighted sum of the constituents\' '
                         'own %s at the same T' % (mname, mname),
                    found=found, required=required)
-    chk.need('R01.1', n_inst, 3, 'estimator methods')
+    chk.need(rule, n_inst, 3, 'estimator methods')
     if len(positions) > 1:
-        chk.ob('R01.1', False, GD, methods['get_CpoR'],
+        chk.ob(rule, False, GD, methods['get_CpoR'],
                key='tuple-order-agreement',
                what='the three methods destructure self.correlations '
                     'elements differently', found=str(sorted(positions)))
     pos = sorted(positions)[0] if positions else ((0,), (1,))
+    return pset, est, methods, pos
+
+
+def run(chk, repo, tier):
+    pset, est, methods, pos = linear_forms(chk, repo)
 
     # ---- R01.2 term list -----------------------------------------------
     init = methods.get('__init__')
